@@ -872,7 +872,11 @@ func merge{{.PointerMethod}}(dst, src pointer, _ *coderFieldInfo, _ mergeOptions
 
 func merge{{.PointerMethod}}NoZero(dst, src pointer, _ *coderFieldInfo, _ mergeOptions) {
 	v := *src.{{.PointerMethod}}()
+	{{- if or (eq . "float32") (eq . "float64")}}
+	if v != {{.Zero}} || math.Signbit(float64(v)) {
+	{{- else}}
 	if v != {{.Zero}} {
+	{{- end}}
 		*dst.{{.PointerMethod}}() = v
 	}
 }
